@@ -21,7 +21,9 @@ RULE = (
     "cap(k) = k*per-4 is the largest payload of k blocks, capped at 1500 octets; thorough: every length 0..1500 that "
     "fits the 7-bit blocks-to-follow field) x 6 (rate, mode) slices with seeded payload bytes and rotating preamble "
     "counts.  'random' sub-check: Hypothesis draws of all fields, lengths weighted towards block boundaries, payload "
-    "bytes random / all 0x00 / all 0xFF / hash-expanded.  Distinct = (rate, mode, length, blocks, pad, preambles, colour "
+    "bytes random / all 0x00 / all 0xFF / hash-expanded.  'short_boundary_payloads' sub-check: deterministic enumeration "
+    "with SAP UDP/IP header compression, payload lengths 0..12, octets {00,01,7F,80,81,FF} on two of the first six positions "
+    "(positions (3,4): all 36 pairs x 2 fills; other position pairs: 3 sampled pairs), all 6 slices.  Distinct = (rate, mode, length, blocks, pad, preambles, colour "
     "code, payload digest); non-trivial = at least 2 data blocks, or confirmed, or pad > 0."
 )
 ASSUMPTIONS = [
@@ -357,8 +359,56 @@ def drv_random(ctx: Ctx, sub: SubCheck):
     ctx.shards(hyp, list(range(ctx.pick(30, 48))))
 
 
+BOUNDARY_OCTETS = [0x00, 0x01, 0x7F, 0x80, 0x81, 0xFF]
+
+
+def drv_short_boundary(ctx: Ctx, sub: SubCheck):
+    """Directed: SAP UDP/IP header compression (the receiver decodes the payload as a compressed header), payload lengths
+    0..12, first six octets from the boundary set on two positions at a time: positions (3,4) (SPID / DPID octets) over all
+    36 value pairs x fills {00, FF}; every other position pair over 3 sampled value pairs.  Identical in both tiers."""
+    rng = ctx.rng("short_boundary")
+    value_pairs = [(a, b) for a in BOUNDARY_OCTETS for b in BOUNDARY_OCTETS]
+    items = []
+    k = 0
+    for si, (rate, conf) in enumerate(SLICES):
+        for n in range(0, 13):
+            avail = min(n, 6)
+            combos = []
+            for p in range(avail):
+                for q in range(p + 1, avail):
+                    if (p, q) == (3, 4):
+                        combos += [((p, q), v, f) for v in value_pairs for f in (0x00, 0xFF)]
+                    else:
+                        combos += [((p, q), v, (0x00, 0xFF, 0x80)[(p + q + j) % 3]) for j, v in enumerate(rng.sample(value_pairs, 3))]
+            if avail < 2:
+                combos = [((0, 0), (v, v), 0x00) for v in BOUNDARY_OCTETS[: 6 if n else 1]]
+            for (p, q), (a, b), f in combos:
+                k += 1
+                payload = bytearray([f]) * n
+                if n:
+                    payload[p], payload[q] = a, b
+                items.append({
+                    "rate": rate, "confirmed": conf, "payload": {"hex": bytes(payload).hex()}, "preambles": k % 2, "cc": k % 16, "ts": 1 + (k // 2) % 2,
+                    "dst": 1 + (k * 7919) % 0xFFFFFF, "src": 1 + (k * 104729) % 0xFFFFFF, "group": bool(k % 3 == 0), "sap": "UDP_IP_compression",
+                    "full": k % 2, "resync": 0, "ns": k % 8 if conf else 0, "fsn": (8 + k % 8) if conf else 0,
+                })
+    chunks = [items[i::64] for i in range(64)]
+    rec = record(sub.name)
+
+    def work(chunk, t: Tally):
+        for case in chunk:
+            if ctx.run_case(sub.name, oracle, case, t):
+                rec(case, t)
+            else:
+                t.case(sub.name, cls="failing")
+
+    ctx.shards(work, chunks)
+    ctx.tally.notes.append("short_boundary_payloads: directed enumeration, SAP UDP/IP compression, lengths 0..12, boundary octets {00,01,7F,80,81,FF} on two of the first six positions")
+
+
 SUBCHECKS = [
     SubCheck("lengths", oracle, drv_lengths, "enumerated payload lengths (block boundaries; thorough: every length 0..1500) x 3 rates x 2 modes through generator -> bytes -> receiver"),
+    SubCheck("short_boundary_payloads", oracle, drv_short_boundary, "directed: SAP UDP/IP compression, payload lengths 0..12, first six octets from {00,01,7F,80,81,FF} on two positions at a time ((3,4) complete) x 3 rates x 2 modes"),
     SubCheck("random", oracle, drv_random, "Hypothesis: all case fields drawn, lengths weighted to block boundaries"),
 ]
 PREDICATES = {}
